@@ -293,4 +293,28 @@ def ruleOfValidator (fn : String) : SigRule :=
   | some dec => (sigRules.find? (fun r => r.func == dec)).getD ⟨"", "", [], "", "", "", 0, [], 0⟩
   | none => ⟨"", "", [], "", "", "", 0, [], 0⟩
 
+/-! ## Part E — genesis import of stored confirmations (`InitGenesis`): who a confirmation is filed under -/
+
+/-- does the comparison of `InitGenesis` (regenerated: `genesisConfirmMatch`) hold between a stored confirmation and an
+oracle record; sides other than the two address fields never match -/
+def genesisSideC (e : Entry) (x : String) : Option String :=
+  if x == "confirm.BridgerAddress" then some e.bridger else if x == "confirm.ExternalAddress" then some e.external else none
+
+def genesisSideO (r : OracleRec) (x : String) : Option String :=
+  if x == "oracle.BridgerAddress" then some r.bridger else if x == "oracle.ExternalAddress" then some r.external else none
+
+def genesisMatches (cmp : String × String × String × String × String) (e : Entry) (r : OracleRec) : Bool :=
+  cmp.2.2.1 == "==" &&
+  match genesisSideC e cmp.2.1, genesisSideO r cmp.2.2.2.1 with
+  | some a, some b => a == b
+  | _, _ => false
+
+/-- the oracles the import files confirmation `e` under: every oracle of the exported registry whose record matches -/
+def importOwners (cmp : String × String × String × String × String) (oracles : List (Nat × OracleRec)) (e : Entry) : List Nat :=
+  (oracles.filter fun p => genesisMatches cmp e p.2).map (·.1)
+
+/-- the comparison the source has now for a confirmation list -/
+def genesisCmpOf (list : String) : String × String × String × String × String :=
+  (genesisConfirmMatch.find? (fun c => c.1 == list)).getD ("", "", "", "", "")
+
 end FxVerif.Model.C12
